@@ -279,10 +279,21 @@ func run(c *mc.Ctx, u mc.Unit) {
 		}
 		var err error
 		if p.Cancel {
-			var fired bool
-			err, fired = a.ProcessCancelledAt(k, blk)
+			var fired, outsideTx bool
+			err, fired, outsideTx = a.ProcessCancelledAt(k, blk)
 			if !fired {
 				panic(fmt.Sprintf("%s: cancellation hook did not fire at write %d of %d", ctxt, k, K))
+			}
+			if outsideTx {
+				// the write is its own implicit transaction: whatever fails after it cannot take it back
+				c.Witness("row_writes_outside_any_transaction")
+				if k < K {
+					c.Failf(fmt.Sprintf("%s/block-written-by-more-than-one-transaction", p.Store), "%s: row write %d of the %d writes of the block is executed outside a database transaction and is committed on its own: a failure of any later write leaves it behind", ctxt, k, K)
+				}
+				if err != nil {
+					c.Failf(fmt.Sprintf("%s/uncancelled-attempt-failed", p.Store), "%s: %v", ctxt, err)
+				}
+				return
 			}
 			c.Witness("attempts_cancelled_mid_transaction")
 			if errors.Is(err, sql.ErrTxDone) {
